@@ -409,8 +409,10 @@ func runStore(kind string, names []int, ops []op, only map[int]bool) (answers []
 	// a fresh id that no store has. Resolving it again later (after store o wrote its k-th model) would make the
 	// interleaved run and the solo run of another store use different ids for one reference — a difference of the
 	// harness, not of the datastore.
-	modelID := func(o, k int) string {
-		key := fmt.Sprintf("%d.%d", o, k)
+	modelID := func(by, o, k int) string {
+		// … per REFERENCING store `by`: what another store referenced earlier must not change what this store's
+		// reference means (the solo run of `by` does not contain the other store's operations)
+		key := fmt.Sprintf("%d>%d.%d", by, o, k)
 		if placeholder[key] == "" {
 			if k < len(stores[o].models) {
 				placeholder[key] = stores[o].models[k]
@@ -630,7 +632,7 @@ func runStore(kind string, names []int, ops []op, only map[int]bool) (answers []
 		case "gm":
 			oo, _ := strconv.Atoi(o.a[0])
 			k, _ := strconv.Atoi(o.a[1])
-			id := modelID(oo, k)
+			id := modelID(o.s, oo, k)
 			if only != nil && oo != o.s {
 				id = ulid.Make().String() // alone, the other store's model does not exist anywhere
 			}
@@ -643,7 +645,7 @@ func runStore(kind string, names []int, ops []op, only map[int]bool) (answers []
 		case "wa", "ra":
 			oo, _ := strconv.Atoi(o.a[0])
 			k, _ := strconv.Atoi(o.a[1])
-			id := modelID(oo, k)
+			id := modelID(o.s, oo, k)
 			if o.kind == "wa" {
 				as := []*openfgav1.Assertion{{TupleKey: &openfgav1.AssertionTupleKey{Object: "doc:" + o.a[2], Relation: "viewer", User: fmt.Sprintf("user:s%d", o.s)}, Expectation: true}}
 				if err := ds.WriteAssertions(ctx, sr.id, id, as); err != nil {
